@@ -149,6 +149,9 @@ pub enum Item {
     FinalRead { kind: ReadKind, key: u32, val: Option<u64> },
     Obs(Obs),
     Phase(String),
+    /// total_weight_used() read by the caller the moment an awaited upsert with an explicit weight
+    /// was acknowledged (single-caller scenarios only)
+    WeightAfterAck { t: usize, i: usize, weight: i64 },
     /// epilogue probe (C07): a put of a key that read as absent at quiescence, and its status
     FinalPut { key: u32, st: St },
 }
